@@ -1,9 +1,26 @@
-//! STUB component for facs -- to be written
+//! component 29: FACS.  Case vocabulary documented in coq/theories/Spec/FacsS.v.
 use crate::sx::*;
+use crate::tcommon::*;
 use crate::Emit;
+use acpi_tables::facs::FACS;
 
-pub fn run(_case: &Sx, _out: &mut Vec<Ev>) {
-    panic!("harness: component facs not implemented")
+pub fn run(case: &Sx, out: &mut Vec<Ev>) {
+    let c = case.list();
+    if !c[0].list().is_empty() {
+        panic!("harness: FACS::new takes no argument");
+    }
+    let t = FACS::new();
+    for op in &c[1..] {
+        if let Sx::A(_) = op {
+            out.push(image(&t));
+            continue;
+        }
+        panic!("harness: FACS has no operation");
+    }
 }
 
-pub fn gen(_tier: &str, _rng: &mut Rng, _emit: &mut Emit) {}
+pub fn gen(_tier: &str, rng: &mut Rng, emit: &mut Emit) {
+    // the constructor has no argument: one case, observed once and twice
+    emit.case(29, history(rng, l(vec![]), vec![]));
+    emit.case(29, l(vec![l(vec![]), a(1), a(1)]));
+}
